@@ -20,7 +20,8 @@ VariantsAll == AllVariants
 Variants12 == {1, 2}
 Variants1 == {1}
 Variants2 == {2}
-Variants256 == {2, 5, 6}
+Variants256 == {2, 5, 6, 7, 8, 9}
+ShapesLen == {3}                \* a custom state event: type, state key and sender are free
 Variants125 == {1, 2, 5}
 AlphabetFull == OpNames
 AlphabetQuick == {"RU", "RT", "RH", "SU1", "SF", "AS2", "RD"}
@@ -34,19 +35,19 @@ SibAll == AllSibFields
 NoFields == {}
 
 ProtoJson(p) ==
-    [type |-> p.type, sk |-> p.sk, redacts |-> p.redacts, num |-> p.num, con |-> p.con, tpiobj |-> p.tpi.obj, tpi |-> p.tpi.keys,
+    [type |-> p.type, sk |-> p.sk, redacts |-> p.redacts, num |-> p.num, lim |-> p.lim, con |-> p.con, tpiobj |-> p.tpi.obj, tpi |-> p.tpi.keys,
      prev |-> p.prev, auth |-> p.auth, depth |-> p.depth, unsigned |-> p.unsigned, room |-> p.room,
      sender |-> p.sender, ts |-> p.ts, origin |-> p.origin, sigkey |-> p.sigkey]
 
 Complete ==
     \/ phase = "refused"
-    \/ (Family \in {"ops", "num"} /\ Len(hist) = MaxOps)
-    \/ (Family \notin {"ops", "num"} /\ phase = "done")
+    \/ (Family \in {"ops", "num", "len"} /\ Len(hist) = MaxOps)
+    \/ (Family \notin {"ops", "num", "len"} /\ phase = "done")
 
 Emit ==
     Complete =>
         PrintT(ToJson(
-            IF Family \in {"ops", "num"} THEN
+            IF Family \in {"ops", "num", "len"} THEN
                 [fam |-> "ops", ver |-> ver, idfmt |-> EventIDFormat(ver), proto |-> ProtoJson(proto), steps |-> hist,
                  refuse |-> phase = "refused"]
             ELSE IF Family = "sib" THEN
